@@ -44,6 +44,7 @@ package main
 import (
 	"context"
 	"fmt"
+	"io"
 	"net"
 	"net/http"
 	"sort"
@@ -493,7 +494,7 @@ var families = map[string]string{
 	"none": "quiet", "accept": "accept-racing-stop", "close": "close-racing-stop", "fin": "fin-racing-stop",
 	"data": "data-racing-stop", "blocked": "callback-running", "blocked-race": "callback-running",
 	"resolve": "dial-resolving", "refuse": "dial-resolving", "fire": "timer-firing",
-	"addconn": "addconn-racing-stop", "dial": "dial-racing-stop", "write": "write-racing-stop",
+	"addconn": "addconn-racing-stop", "dial": "dial-racing-stop", "write": "write-racing-stop", "sendfile": "sendfile-racing-stop",
 	"udpdata": "udp-datagram-racing-stop", "request": "request-racing-stop",
 }
 
@@ -633,6 +634,44 @@ func coreBody(c ccfg) func() {
 				}
 				v.counters["dup_fd_at_stop"]++
 				setTarget(ci)
+			case "sendfile-only", "sendfile-drained", "small":
+				// "sendfile-only": Sendfile to a peer that does not read: the kernel takes what fits,
+				// the rest of the file is queued as a dup'ed descriptor; the write queue holds NO
+				// buffered bytes (c.left == 0). "sendfile-drained": the same after a buffer backlog
+				// was flushed completely. "small": just the small-capacity connection (for the
+				// Sendfile racing with Stop).
+				ci := w.newStream("add", 3)
+				if _, err := g.AddConn(ci.c); err != nil {
+					w.fail("harness|AddConn: %v", err)
+					return
+				}
+				setTarget(ci)
+				if ev == "small" {
+					break
+				}
+				if ev == "sendfile-drained" {
+					if n, err := ci.c.Write(make([]byte, 5)); n != 5 || err != nil {
+						w.fail("harness|Write = %d, %v", n, err)
+						return
+					}
+					vsched.WaitIdle()
+					ci.peer.Read(0)
+					vsched.WaitIdle()
+					if sn := ci.c.VerifSnapshot(); sn.QueueLen != 0 || sn.Left != 0 {
+						w.fail("harness|history: the buffer backlog was not flushed (queue %v, left %d)", sn.Queue, sn.Left)
+						return
+					}
+				}
+				if n, err := ci.c.Sendfile(ekit.OpenDataFile(3, 8, 0), 0); n != 8 || err != nil {
+					w.fail("harness|Sendfile = %d, %v", n, err)
+					return
+				}
+				sn := ci.c.VerifSnapshot()
+				if sn.Left != 0 || len(sn.Queue) != 1 || sn.Queue[0] != -1 || countDups() != 1 {
+					w.fail("harness|history: expected a file-only write queue and one dup'ed descriptor: queue %v, left %d, fds %v", sn.Queue, sn.Left, vsys.OpenFDs())
+					return
+				}
+				v.counters["file_only_backlog_at_stop"]++
 			case "backlog-rst":
 				// a connection with a write backlog whose peer resets it: the poller's flush hits the
 				// hard error and tears the connection down before Stop
@@ -818,6 +857,19 @@ func coreBody(c ccfg) func() {
 				}
 				w.tick(8)
 			})
+		case "sendfile":
+			w.userThread("h.user", "Sendfile", func() {
+				if w.afterReturn() {
+					return
+				}
+				_, err := target.c.Sendfile(ekit.OpenDataFile(3, 8, 0), 0)
+				if err != nil {
+					v.counters["late_sendfile_rejected"]++
+				} else if countDups() > 0 {
+					v.counters["late_sendfile_queued_file"]++
+				}
+				w.tick(9)
+			})
 		case "udpdata":
 			vsched.GoNamed("h.net", func() { udpPeer.Send(7002, []byte{2}) })
 		default:
@@ -879,6 +931,18 @@ func coreBody(c ccfg) func() {
 	}
 }
 
+// countDups counts the real descriptors nbio obtained from dup() (queued Sendfile ranges) that
+// are still open.
+func countDups() int {
+	n := 0
+	for _, s := range vsys.OpenFDs() {
+		if strings.HasSuffix(s, ":realdup") {
+			n++
+		}
+	}
+	return n
+}
+
 func lnState(lns []*fakeListener) []string {
 	var out []string
 	for _, l := range lns {
@@ -918,6 +982,7 @@ func (c hcfg) name() string {
 }
 
 const httpReq = "GET / HTTP/1.1\r\nHost: a\r\n\r\n"
+const httpFileReq = "GET /file HTTP/1.1\r\nHost: a\r\n\r\n"
 
 func httpBody(c hcfg) func() {
 	return func() {
@@ -943,6 +1008,12 @@ func httpBody(c hcfg) func() {
 				handled++
 				w.tick(10)
 				w.maybePark()
+				if r.URL.Path == "/file" {
+					// identity-framed file body through the sendfile fast path
+					rw.Header().Set("Content-Length", "400")
+					_, _ = rw.(io.ReaderFrom).ReadFrom(ekit.OpenDataFile(4, 400, 0))
+					return
+				}
 				_, _ = rw.Write([]byte("ok"))
 			})}
 		conf.EpollMod, conf.EPOLLONESHOT = coreModeOf(c.mode)
@@ -1004,7 +1075,7 @@ func httpBody(c hcfg) func() {
 					w.fail("harness|AddTransferredConn: %v", err)
 					return
 				}
-			case "inject", "request", "partial":
+			case "inject", "request", "partial", "filereq":
 				e.AddConnNonTLSNonBlocking(&nbhttp.Conn{Conn: ci.c}, nil, func() {})
 			case "accept":
 				lns[0].push(ci.c)
@@ -1023,6 +1094,17 @@ func httpBody(c hcfg) func() {
 			case "partial":
 				ci.peer.Write([]byte(httpReq[:9]))
 				vsched.WaitIdle()
+			case "filereq":
+				// the handler's ReadFrom(file): head written, the file only partly (peer not reading):
+				// a file-only write queue with a dup'ed descriptor
+				ci.peer.Write([]byte(httpFileReq))
+				vsched.WaitIdle()
+				sn := ci.c.VerifSnapshot()
+				if handled == 0 || sn.Left != 0 || len(sn.Queue) != 1 || sn.Queue[0] != -1 || countDups() != 1 {
+					w.fail("harness|history: expected a file-only write queue after ReadFrom: handled %d queue %v left %d fds %v peer-queued %d", handled, sn.Queue, sn.Left, vsys.OpenFDs(), ci.peer.Queued())
+					return
+				}
+				v.counters["file_only_backlog_at_stop"]++
 			}
 		}
 		if len(c.hist) > 0 && c.iomod != "mixed" && e.Online() != len(c.hist) {
@@ -1293,6 +1375,8 @@ var (
 		{h("udp"), "none", 0}, {h("udp"), "udpdata", 0},
 		{h("sendfile"), "none", 0}, {h("sendfile"), "close", 0}, {h("sendfile"), "fin", 0},
 		{h("backlog-rst"), "none", 0}, {h("fin-closed"), "none", 0}, {h("user-closed"), "none", 0},
+		{h("sendfile-only"), "none", 0}, {h("sendfile-only"), "close", 0}, {h("sendfile-only"), "fin", 0},
+		{h("sendfile-drained"), "none", 0}, {h("small"), "sendfile", 0},
 	}
 	extraSingles = []ccase{{h("add"), "blocked-race", 0}, {h("accept"), "blocked-race", 1}, {h("dialok"), "blocked", 0}, {h("backlog"), "blocked-race", 0}}
 	doubles      = []ccase{
@@ -1323,6 +1407,7 @@ var (
 		{h("request"), "none", false}, {h("request"), "request", false}, {h("request"), "fin", false}, {h("request"), "blocked", false},
 		{h("partial"), "none", false}, {h("partial"), "fin", false}, {h("partial"), "request", false},
 		{h("transfer"), "none", false}, {h("transfer"), "fin", false}, {h("transfer"), "close", false},
+		{h("filereq"), "none", false}, {h("filereq"), "close", false},
 	}
 	// two HTTP connections: only with plain Stop (Shutdown ranges over the connection map)
 	hdoubles = []hcase{
@@ -1500,7 +1585,7 @@ func main() {
 	defer ekit.CleanupFiles()
 	vkit.Main(&vkit.Spec{
 		Property: "C18", Level: "model_checking",
-		Rule: "one scenario = engine (core nbio.Engine / nbhttp.Engine) x configuration (epoll mode LT/ET/ONESHOT, NPoller 1-2, 0-2 fake listeners, sync read or async read with pool / goroutine-per-task / inline executor; HTTP: server executor {engine's own pool, user-supplied goroutine-per-job, user-supplied inline} x client executor {engine's own pool, user-supplied, none (SupportServerOnly)}, IOModNonBlocking / IOModMixed) x settled history of 0-3 events (accepted connection, AddConn, connection already ended before Stop by a peer reset of a write backlog / peer FIN / user Close, write backlog, queued Sendfile range with dup'ed descriptor, read deadline, pending / timed / connected async dial, UDP listener with a session; HTTP: injected, accepted or transferred connection, handled request, partial request) x one activity racing with the stopping call (listener hands out one more connection, user Close, peer FIN, peer data / request, callback parked on a latch, dial resolving, deadline firing, AddConn / DialAsync / Write by the user, datagram of a new remote) x stopping call (Stop, Shutdown(Background), Shutdown(live cancel ctx)); every interleaving within the preemption bound; non-trivial = the stopping call was started. SECOND PART (scenario name \"blocking-modes/real-sockets/history-enumeration\", a different and weaker kind of claim): bounded-exhaustive enumeration of HISTORIES, free-running schedule - one case = I/O mode (IOModBlocking, IOModMixed with the history in its blocking-first dispatch, IOModMixed with every connection of the history in the poller half, IOModNonBlocking as control) x WebSocket upgrader variant (plain / BlockingModAsyncWrite / BlockingModTrasferConnToPoller) x every event sequence of length <= 3 (thorough: 4) on <= 2 real AF_UNIX socket-pair connections over {open, keep-alive request, HTTP/1.0 request, request whose 70000-byte response is left in flight against a 4096-byte send buffer, partial request, its completion, WebSocket handshake, message echo, close handshake, peer close, peer half-close} x ending (Stop, Shutdown with a live 45 s context, all peers close then Stop); each case is executed ONCE on the real code with real goroutines and the real kernel, schedules are not enumerated",
+		Rule: "one scenario = engine (core nbio.Engine / nbhttp.Engine) x configuration (epoll mode LT/ET/ONESHOT, NPoller 1-2, 0-2 fake listeners, sync read or async read with pool / goroutine-per-task / inline executor; HTTP: server executor {engine's own pool, user-supplied goroutine-per-job, user-supplied inline} x client executor {engine's own pool, user-supplied, none (SupportServerOnly)}, IOModNonBlocking / IOModMixed) x settled history of 0-3 events (accepted connection, AddConn, connection already ended before Stop by a peer reset of a write backlog / peer FIN / user Close, write backlog, Sendfile range queued behind a buffer backlog / as a file-only write queue (peer not reading) / after a drained buffer, each with its dup'ed descriptor, read deadline, pending / timed / connected async dial, UDP listener with a session; HTTP: injected, accepted or transferred connection, handled request, request answered with ReadFrom(file) to a peer that does not read, partial request) x one activity racing with the stopping call (listener hands out one more connection, user Close, peer FIN, peer data / request, callback parked on a latch, dial resolving, deadline firing, AddConn / DialAsync / Write / Sendfile by the user, datagram of a new remote) x stopping call (Stop, Shutdown(Background), Shutdown(live cancel ctx)); every interleaving within the preemption bound; non-trivial = the stopping call was started. SECOND PART (scenario name \"blocking-modes/real-sockets/history-enumeration\", a different and weaker kind of claim): bounded-exhaustive enumeration of HISTORIES, free-running schedule - one case = I/O mode (IOModBlocking, IOModMixed with the history in its blocking-first dispatch, IOModMixed with every connection of the history in the poller half, IOModNonBlocking as control) x WebSocket upgrader variant (plain / BlockingModAsyncWrite / BlockingModTrasferConnToPoller) x every event sequence of length <= 3 (thorough: 4) on <= 2 real AF_UNIX socket-pair connections over {open, keep-alive request, HTTP/1.0 request, request whose 70000-byte response is left in flight against a 4096-byte send buffer, partial request, its completion, WebSocket handshake, message echo, close handshake, peer close, peer half-close} x ending (Stop, Shutdown with a live 45 s context, all peers close then Stop); each case is executed ONCE on the real code with real goroutines and the real kernel, schedules are not enumerated",
 		Assumptions: []string{
 			"a connection that a listener's Accept returned before listener.Close() was called is the engine's to close; the fake listener never hands out a connection after Close (what stays queued is the harness's own)",
 			"'close notification delivered before Stop returns' is judged per connection that got an open notification (OnOpen or a dial callback with nil error), counted when the close callback is entered; applied to the core engine only, as the statement says; a second close notification for the same connection is a violation too (it releases the wait group Stop relies on)",
